@@ -1,6 +1,7 @@
 package harness
 
 import (
+	"bytes"
 	"encoding/json"
 	"fmt"
 	"hash/fnv"
@@ -40,8 +41,12 @@ const (
 	TFNullElement  ToolFault = "null-element"      // shellcheck only: valid JSON with a null element: [null]
 	TFNoNewline    ToolFault = "no-final-newline"  // pyflakes only: the output is cut off in the middle of the last line
 	TFExit137      ToolFault = "exit-137-empty"    // exits with a status above 127 (a wrapper reporting a signal) without output
+	TFFlood        ToolFault = "floods-output"     // writes 5 MiB of text that is no report (far more than a pipe holds) and exits 1
 	TFBusyOnce     ToolFault = "busy-once"         // the first start attempt fails with ETXTBSY (the executable is being written); a second attempt works
 )
+
+// floodOutput is what a tool that went wild prints: 5 MiB of lines that are no report.
+var floodOutput = bytes.Repeat([]byte("tool: internal error: the same line over and over again ............\n"), 5*1024*1024/70)
 
 // ToolIssue is one issue a simulated tool prints.
 type ToolIssue struct {
@@ -207,6 +212,8 @@ func (t *Tools) Run(argv []string, stdin string) kern.ToolResult {
 		return kern.ToolResult{Signaled: true, Stdout: stdout[:cut]}
 	case TFExit137:
 		return kern.ToolResult{ExitCode: 137}
+	case TFFlood:
+		return kern.ToolResult{ExitCode: 1, Stdout: floodOutput}
 	case TFNonzeroEmpty, TFEpipe:
 		// "exits non-zero without output": nothing on stdout and nothing on stderr
 		return kern.ToolResult{ExitCode: 1}
